@@ -1637,13 +1637,18 @@ impl Ty {
         match (self, expected) {
             (
                 Ty::Distinct { sub_ty: ty, .. } | Ty::EnumVariant { sub_ty: ty, .. },
-                Ty::IInt(0) | Ty::UInt(0),
+                Ty::IInt(0) | Ty::UInt(0) | Ty::Float(0),
             ) => {
                 if ty.has_semantics_of(expected) {
                     return true;
                 }
             }
-            (Ty::Distinct { .. } | Ty::EnumVariant { .. }, Ty::IInt(_) | Ty::UInt(_)) => {
+            // a distinct type doesn't mix with its (strong) underlying type in operators.
+            // that goes for floats, bools and chars just like for integers
+            (
+                Ty::Distinct { .. } | Ty::EnumVariant { .. },
+                Ty::IInt(_) | Ty::UInt(_) | Ty::Float(_) | Ty::Bool | Ty::Char,
+            ) => {
                 return false;
             }
             (
